@@ -1,4 +1,5 @@
 import DigModel.Proofs.Parse
+import DigModel.Proofs.ObjParse
 /-
   C15 — Parameter and result objects are equivalent to positional forms.
 
@@ -10,9 +11,18 @@ import DigModel.Proofs.Parse
   * `C15_shallow_flat`: the pre-call check of an object is the concatenation of the checks of its fields
     (nested objects are entered — the point of seeded change C15);
   * `C15_dot_flat`: the Info entries of an object are the concatenation of its fields' entries, in order.
-  The parse-level half (an object type with fields t1…tn parses to the object of the parses of t1…tn) and
-  result objects are covered by the K-reflect correspondence (Info structs) and by the fact that the engine
-  only sees the parsed descriptors.
+  Parse level (`Proofs/ObjParse.lean`):
+  * `C15_object_parse`: a struct embedding `dig.In` whose other fields are exported and untagged parses to the object
+    of exactly the positional parse of the fields' types — same descriptors in declaration order, same
+    group-parameter graph nodes, same error at the same point (`C15_plain_field`: one field = one positional parameter);
+  * `C15_variadic`: a variadic parameter is dropped: the signature parses as the one without it;
+  * `C15_result_object_extract` / `_keys` / `_decorate_keys` / `_info`: a result object is extracted into the caches,
+    checked for duplicate keys by Provide, turned into the key list of Decorate and reported in Info structs exactly
+    like the list of its fields;
+  * `C15_name_tag_is_option`, `C15_untagged_field_is_positional`: a `name` tag on a result-object field is the
+    `dig.Name` option on the positional result; an untagged field is the positional result.
+  (The token a value carries records the *slot* of the declared result it came from, which differs between the two
+  encodings; everything dig looks at — keys, types, names, groups, flags — is the same.)
 -/
 namespace Dig.C15
 
@@ -92,6 +102,58 @@ theorem C15_shallow_flat (st : St) (c ty : Nat) (fs : List Param) :
 theorem C15_dot_flat (ty : Nat) (fs : List Param) : dotParam (.object ty fs) = dotParams fs := by
   simp only [dotParam]
 
+theorem C15_plain_field (env : TyEnv) (m : FieldMeta) (t : GoT) (hm : m.plain) (s : List PGDesc) :
+    newParamField env (m, t) s = newParam env t s := newParamField_plain env m t hm s
+
+theorem C15_object_parse (env : TyEnv) (i : Nat) (inM : FieldMeta) (fs : List (FieldMeta × GoT)) (ignore : Bool)
+    (hout : isOutT (.strct i ((inM, .univ tIn) :: fs)) = false) (houtp : embeds tOutPtr (.strct i ((inM, .univ tIn) :: fs)) = false)
+    (hin : isInT (.strct i ((inM, .univ tIn) :: fs)) = true) (hig : boolTag inM.tags.ignore = .ok ignore)
+    (hfs : ∀ f ∈ fs, f.2.isUniv tIn = false ∧ f.1.plain) (s : List PGDesc) :
+    newParam env (.strct i ((inM, .univ tIn) :: fs)) s =
+      match newParamListAux env (fs.map (·.2)) s with
+      | (.ok ps, s') => (.ok (.object i ps), s')
+      | (.error e, s') => (.error e, s') :=
+  newParam_object_plain env i inM fs ignore hout houtp hin hig hfs s
+
+theorem C15_variadic (env : TyEnv) (fn : Fn) (hv : fn.variadic = true) :
+    newParamList env fn = newParamList env { fn with ins := fn.ins.dropLast, variadic := false } :=
+  newParamList_variadic env fn hv
+
+theorem C15_result_object_extract (env : TyEnv) (deco : Bool) (r : Ret) (sc : ScopeSt) (ty : Nat) (fs : List Result)
+    (rest : List RSlot) :
+    extractSlots env deco r sc (.val (.object ty fs) :: rest) = extractSlots env deco r sc (fs.map RSlot.val ++ rest) :=
+  extractSlots_object env deco r sc ty fs rest
+
+theorem C15_result_object_keys (X : ScopeSt) (ty : Nat) (fs rest : List Result) (seen : List Key) :
+    visitKeys X (.object ty fs :: rest) seen = visitKeys X (fs ++ rest) seen := visitKeys_object X ty fs rest seen
+
+theorem C15_result_object_decorate_keys (env : TyEnv) (ty : Nat) (fs rest : List Result) :
+    resultKeys env (.object ty fs :: rest) = resultKeys env (fs ++ rest) := resultKeys_object env ty fs rest
+
+theorem C15_result_object_info (ty : Nat) (fs : List Result) (rest : List RSlot) :
+    dotSlots (.val (.object ty fs) :: rest) = dotSlots (fs.map RSlot.val ++ rest) := dotSlots_object ty fs rest
+
+theorem C15_name_tag_is_option (env : TyEnv) (o : ResultOpts) (slot : Nat) (m : FieldMeta) (t : GoT)
+    (he : m.exported = true) (hg : m.tags.group = "") (hn : m.tags.name ≠ "") :
+    newResultField env o slot (m, t) = newResult env { o with name := m.tags.name } slot t :=
+  newResultField_name_tag env o slot m t he hg hn
+
+theorem C15_untagged_field_is_positional (env : TyEnv) (o : ResultOpts) (slot : Nat) (m : FieldMeta) (t : GoT)
+    (he : m.exported = true) (hg : m.tags.group = "") (hn : m.tags.name = "") :
+    newResultField env o slot (m, t) = newResult env o slot t := newResultField_plain env o slot m t he hg hn
+
+/-- non-vacuity (a test): an untagged exported field is `plain` -/
+example : ({ name := "A", exported := true, anon := false, tags := {} } : FieldMeta).plain := ⟨rfl, rfl, rfl, rfl⟩
+
+#print axioms C15_plain_field
+#print axioms C15_object_parse
+#print axioms C15_variadic
+#print axioms C15_result_object_extract
+#print axioms C15_result_object_keys
+#print axioms C15_result_object_decorate_keys
+#print axioms C15_result_object_info
+#print axioms C15_name_tag_is_option
+#print axioms C15_untagged_field_is_positional
 #print axioms C15_interleave_hard
 #print axioms C15_object_build
 #print axioms C15_list_build
